@@ -30,11 +30,14 @@ type controllingSelector struct {
 	agent         *Agent
 	nominatedPair *CandidatePair
 	log           logging.LeveledLogger
+	// lastNomination is the highest renomination value applied so far.
+	lastNomination *uint32
 }
 
 func (s *controllingSelector) Start() {
 	s.startTime = time.Now()
 	s.nominatedPair = nil
+	s.lastNomination = nil
 }
 
 func (s *controllingSelector) isNominatable(c Candidate) bool {
@@ -203,10 +206,15 @@ func (s *controllingSelector) HandleSuccessResponse(
 
 		// If this is a renomination request (has nomination value), always update the selected pair
 		// If it's a standard nomination (no value), only set if no pair is selected yet
-		if pendingRequest.nominationValue != nil {
-			s.log.Infof("Renomination success response received for pair %s (nomination value: %d), switching to this pair",
-				pair, *pendingRequest.nominationValue)
-			s.agent.setSelectedPair(pair)
+		if value := pendingRequest.nominationValue; value != nil {
+			// Last nomination wins: the (late) answer to an older renomination must not
+			// override a newer one that has already been applied.
+			if s.lastNomination == nil || *value > *s.lastNomination {
+				s.log.Infof("Renomination success response received for pair %s (nomination value: %d), switching to this pair",
+					pair, *value)
+				s.lastNomination = value
+				s.agent.setSelectedPair(pair)
+			}
 		} else if selectedPair == nil {
 			s.agent.setSelectedPair(pair)
 		}
